@@ -57,9 +57,9 @@ def run(ctx):
         for off in marks:
             b[off:off + 6] = b"needle"
         return bytes(b).decode("latin-1")
-    bigs = [big(28000, [14000]), big(9000, [100]), big(9000, [8990]), big(20000, [5000, 15000]), big(12289, []), big(4097, [4091]), big(8192, [4093, 8186]),
+    bigs = [big(4096 + 6, [4096]), big(4096, []), big(8192 + 6 + 4096, [8192]), big(6 + 4096 + 6 + 8192, [0, 4096 + 6]), big(12288, []), big(28000, [14000]), big(9000, [100]), big(9000, [8990]), big(20000, [5000, 15000]), big(12289, []), big(4097, [4091]), big(8192, [4093, 8186]),
             big(30000, [10, 29990]), big(16384, [6000])]
-    for content in (bigs if not quick else bigs[:3] + rng.sample(bigs[3:], 3)):
+    for content in (bigs if not quick else bigs[:8] + rng.sample(bigs[8:], 3)):
         for mode in ("NEW", "OVERWRITE", "NOTHING"):
             for src in ("replace all 'needle' with 'N'", "replace all 'needle' with '<<' value value '>>'"):
                 if quick and mode != "OVERWRITE" and rng.random() < 0.5:
